@@ -154,7 +154,7 @@ def compile_code(
                 if not value:
                     tag = tag[3:].strip()
 
-                if hasattr(options, tag):
+                if tag in options.__dataclass_fields__:
                     setattr(options, tag, value)
 
     set_output_mode(OutputMode.COMPACT if options.compact else OutputMode.VERBOSE)
